@@ -8,6 +8,7 @@ import (
 	"fmt"
 	"math"
 	"reflect"
+	"regexp"
 	"runtime"
 	"sort"
 	"strconv"
@@ -66,6 +67,9 @@ func PanicSig(msg, stack string) string {
 
 // AbstractMsg replaces numbers and hex by N and clips the message.
 func AbstractMsg(msg string) string {
+	// Go type names are abstracted so that one defect has one signature
+	msg = reTypeNames.ReplaceAllString(msg, "${1}T")
+	msg = reOnKind.ReplaceAllString(msg, "on K Value")
 	var b strings.Builder
 	inNum := false
 	for i := 0; i < len(msg); i++ {
@@ -89,6 +93,11 @@ func AbstractMsg(msg string) string {
 	}
 	return s
 }
+
+var (
+	reTypeNames = regexp.MustCompile(`((?:value of type|assignable to type|to type|is not|type) )[^ ]+(?: \{[^}]*\})?`)
+	reOnKind    = regexp.MustCompile(`on [a-zA-Z0-9]+ Value`)
+)
 
 // Exec runs vm.Execute (debug=false) observing panics.
 func Exec(e *env.Env, src string) (o Out) {
